@@ -383,7 +383,9 @@ func RunUserTok(tw *TraceWriter, rng *rand.Rand, tier string) (M, error) {
 		}()
 		discloses := user != "" && strings.Contains(body, `"sub":"`+user+`"`)
 		tw.Line(M{"ev": "usertok", "vm": vm, "kind": kind, "method": method, "hasParam": hasParam, "tok": rec, "status": st,
-			"apiOK": apiOK, "subjectIsUser": apiSub == user && user != "", "bodyHasSubject": discloses, "bodyHasClaims": strings.Contains(body, `"iss"`) || strings.Contains(body, `"sub"`),
+			"apiOK": apiOK, "subjectIsUser": apiSub == user && user != "", "bodyHasSubject": discloses,
+			// a refusal discloses nothing of the token's content: neither claims as JSON nor the user name in any wording
+			"bodyHasClaims": strings.Contains(body, `"iss"`) || strings.Contains(body, `"sub"`) || (st != 200 && user != "" && strings.Contains(body, user)),
 			"leak": leaks(tok, user), "len": len(tok)})
 		n++
 	}
